@@ -481,3 +481,29 @@ def misaligned_key_value_pairs(fn):
                     if d and d == norm(v.func.value):
                         out.append((c, d))
     return out
+
+
+def truncated_near_integer(fn):
+    """[(int call, name)]: a quotient q = a / b is accepted as 'an integer to within rounding' (abs(round(q) - q) compared with a
+    tolerance) and then converted with int(q): int() truncates, so a q that is an integer minus a rounding error (6.9999999) becomes the
+    integer below it -- the conversion that matches the test is round(q)."""
+    quot = {}
+    for st in ast.walk(fn):
+        if isinstance(st, ast.Assign) and len(st.targets) == 1 and isinstance(st.targets[0], ast.Name) and isinstance(st.value, ast.BinOp) \
+                and isinstance(st.value.op, ast.Div):
+            quot[st.targets[0].id] = st
+    out = []
+    for q in quot:
+        tested = any(isinstance(c, ast.Compare) and any(isinstance(x, ast.Call) and dotted(x.func) in ('round', 'np.round', 'np.rint', 'numpy.round') and x.args
+                                                        and isinstance(x.args[0], ast.Name) and x.args[0].id == q for x in ast.walk(c))
+                     for c in ast.walk(fn))
+        if not tested:
+            continue
+        for c in ast.walk(fn):
+            if isinstance(c, ast.Call) and dotted(c.func) in ('int', 'math.floor', 'np.floor', 'floor') and len(c.args) == 1 \
+                    and isinstance(c.args[0], ast.Name) and c.args[0].id == q:
+                out.append((c, q))
+            elif isinstance(c, ast.Call) and dotted(c.func) == '__cast__' and len(c.args) == 2 and isinstance(c.args[0], ast.Constant) \
+                    and c.args[0].value in ('int', 'long') and isinstance(c.args[1], ast.Name) and c.args[1].id == q:
+                out.append((c, q))
+    return out
